@@ -160,7 +160,7 @@ def error_paths_do_not_commit(ctx, s, root):
     oks = [n for n, k, v in rk if k == "ok"]
     errs = [(n, v) for n, k, v in rk if k == "err"]
     ctx.paths += len(rk)
-    after_commit = an.cfg.reach_from(ok_edges) if ok_edges else set()
+    after_commit = s.reach(fn, ok_edges) if ok_edges else set()
     bad_err = [n for n, v in errs if n in after_commit]
     name = root.split("::")[-1]
     if bad_err:
@@ -171,7 +171,7 @@ def error_paths_do_not_commit(ctx, s, root):
               "none of the %d error returns is reachable from a successful commit" % len(errs))
     missing = [n for n in oks if not s.must_pass(fn, n if n < an.cfg.nblocks else n, ok_edges)]
     # must_pass works on nodes: for edge nodes use reachability without the ok edges
-    reach = an.cfg.reach_from([an.cfg.entry], avoid=ok_edges)
+    reach = s.reach(fn, [an.cfg.entry], avoid=ok_edges)
     missing = [n for n in oks if n in reach]
     if missing:
         s.add("S-TXN", fn, "ok-needs-commit", name, fn.sp, VIOLATION,
